@@ -82,12 +82,19 @@ def retag_dims(t, dims):
 
 # -------------------------------------------------------------- elementwise
 def _align_zero(a, b):
-    """If one operand is all-zero with a dims typing that differs only in E/S kinds, retag it."""
+    """If one operand is all-zero with a dims typing that differs only in E/S kinds, retag it; likewise when the
+    typings differ at unit axes only."""
     if a.shape == b.shape and a.dims != b.dims:
         if a.is_zero():
             return retag_dims(a, b.dims), b
         if b.is_zero():
             return a, retag_dims(b, a.dims)
+        r = b.retag_units(a.dims)
+        if r is not None:
+            return a, r
+        r = a.retag_units(b.dims)
+        if r is not None:
+            return r, b
     return a, b
 
 
@@ -235,13 +242,25 @@ def cat(tensors, dim=0):
             dd = [(rk, s) for (rk, _), (_, s) in zip(ref.dims, t.dims)]
             t = retag_dims(t, dd)
         ts.append(t)
+    ts2 = []
+    for t in ts:
+        if t.dims != ref.dims and all(a[1] == b[1] for i, (a, b) in enumerate(zip(t.dims, ref.dims)) if i != d):
+            tgt = [(rk, s) for (rk, _), (_, s) in zip(ref.dims, t.dims)]
+            r = t.retag_units(tgt)
+            if r is not None:
+                t = r
+        ts2.append(t)
+    ts = ts2
     for i in range(n):
         if i == d:
             continue
         for t in ts:
-            if t.dims[i] != ref.dims[i]:
+            if t.dims[i][1] != ref.dims[i][1]:
                 raise PyExc('RuntimeError', 'Sizes of tensors must match except in dimension %d. '
                             'Expected size %s but got size %s' % (d, ref.dims[i][1], t.dims[i][1]))
+            if t.dims[i] != ref.dims[i]:
+                raise AnalysisError('unsupported', 'cat of tensors whose enumerated / spatial typing differs '
+                                    '(%s vs %s)' % (t.dims, ref.dims))
     kind = ref.dims[d][0]
     if any(t.dims[d][0] != kind for t in ts):
         raise AnalysisError('unsupported', 'cat mixes spatial and enumerated dims')
@@ -385,7 +404,7 @@ def permute(t, order):
         cells = cells.copy()
     r = t.like([t.dims[o] for o in order], cells, view=True)
     r.contig = False
-    return r
+    return normalise_units(r)
 
 
 def transpose(t, d0, d1):
@@ -395,7 +414,39 @@ def transpose(t, d0, d1):
     return permute(t, order)
 
 
+def as_nchw(x):
+    """a 4-D tensor whose typing differs from (N, C, H, W) at unit axes only is re-typed (see DataT.retag_units)"""
+    if isinstance(x, DataT) and x.ndim == 4 and [k for k, _ in x.dims] != ['E', 'E', 'S', 'S']:
+        r = x.retag_units([('E', x.dims[0][1]), ('E', x.dims[1][1]), ('S', x.dims[2][1]), ('S', x.dims[3][1])])
+        if r is not None:
+            return r
+    return x
+
+
+def normalise_units(t):
+    """normal form of the typing of unit axes: a unit spatial axis directly before a unit enumerated axis trades
+    places with it (pure relabelling, see DataT.retag_units), so that (N, C, 1, 1, W)-like results of unflatten /
+    unsqueeze / movedim chains come out typed the same way whichever route produced them"""
+    dims = [tuple(d) for d in t.dims]
+    changed = False
+    moved = True
+    while moved:
+        moved = False
+        for i in range(len(dims) - 1):
+            if dims[i] == ('S', 1) and dims[i + 1] == ('E', 1):
+                dims[i], dims[i + 1] = dims[i + 1], dims[i]
+                moved = changed = True
+    if not changed:
+        return t
+    r = t.retag_units(dims)
+    return r if r is not None else t
+
+
 def reshape(t, shape, is_view=False):
+    return as_nchw(normalise_units(_reshape(t, shape, is_view)))
+
+
+def _reshape(t, shape, is_view=False):
     t.check_fresh_view()
     if getattr(t, 'nl', False):
         from . import nonlin
@@ -586,6 +637,10 @@ def _check_conv_input(x, w, what):
                     % (what, list(x.shape)))
     if w.arr.ndim != 4:
         raise PyExc('RuntimeError', 'weight should have 4 dimensions, got %s' % list(w.shape))
+    if [k for k, _ in x.dims] != ['E', 'E', 'S', 'S']:
+        r = x.retag_units([('E', x.dims[0][1]), ('E', x.dims[1][1]), ('S', x.dims[2][1]), ('S', x.dims[3][1])])
+        if r is not None:
+            x = r
     if x.dims[0][0] != 'E' or x.dims[1][0] != 'E':
         raise AnalysisError('unsupported', 'batch/channel dims of a conv input are spatial')
     x.check_fresh_view()
@@ -775,6 +830,7 @@ def conv_transpose2d(x, w, bias=None, stride=1, padding=0, output_padding=0, gro
 
 # ------------------------------------------------------------------ padding
 def pad(x, padding, mode='constant', value=None):
+    x = as_nchw(x)
     if not isinstance(x, DataT):
         raise AnalysisError('unsupported', 'F.pad of %s' % type(x).__name__)
     x.check_fresh_view()
@@ -847,6 +903,7 @@ def gather_axis(x, d, idxs):
 
 
 def avg_pool2d(x, kernel_size, stride=None, padding=0, ceil_mode=False, count_include_pad=True):
+    x = as_nchw(x)
     if getattr(x, 'nl', False):
         from . import nonlin
         x = nonlin.rebase(x)
@@ -885,6 +942,7 @@ def avg_pool2d(x, kernel_size, stride=None, padding=0, ceil_mode=False, count_in
 
 
 def interpolate(x, size=None, scale_factor=None, mode='nearest', align_corners=None):
+    x = as_nchw(x)
     if getattr(x, 'nl', False):
         from . import nonlin
         x = nonlin.rebase(x)
